@@ -23,7 +23,7 @@ class Bar:
         self.sequence.normalise()
 
         # Assert bar has correct capacity
-        if self.sequence.get_sequence_duration_relation() > self.time_signature_numerator * PPQN / (
+        if self.sequence.get_sequence_duration_relation() > self.time_signature_numerator / (
                 self.time_signature_denominator / 4):
             raise BarException("Bar capacity exceeded")
 
